@@ -30,7 +30,8 @@ type lockState struct {
 	held    bool
 	owner   *Goroutine
 	readers int
-	vc      map[int]int
+	vc      map[int]int // released by Unlock: acquired by Lock and RLock
+	rvc     map[int]int // released by RUnlock: acquired by Lock only (readers are not ordered among themselves)
 }
 
 type wgState struct {
@@ -523,6 +524,9 @@ func (ex *Exec) mutexLock(fr *frame, p *Value, write bool) {
 		l.readers++
 	}
 	ex.syncAcquire(&l.vc)
+	if write {
+		ex.syncAcquire(&l.rvc)
+	}
 }
 
 func (ex *Exec) mutexUnlock(fr *frame, p *Value, write bool) {
@@ -539,7 +543,11 @@ func (ex *Exec) mutexUnlock(fr *frame, p *Value, write bool) {
 		}
 		l.readers--
 	}
-	ex.syncRelease(&l.vc)
+	if write {
+		ex.syncRelease(&l.vc)
+	} else {
+		ex.syncRelease(&l.rvc)
+	}
 	ex.yieldPoint("unlock")
 }
 
